@@ -215,6 +215,16 @@ func cmdSynTrees(args []string) {
 		{"id": 2, "emptyvars": false, "vars": []any{}, "stmts": []any{J{"k": "call", "name": "set_account_meta", "args": jl(eAcct("a"), eStr("cl^"), eStr("^^"))}, J{"k": "save", "all": true, "sent": eAsset("USD"), "e": eAcct("a")}}},
 		// a string whose last character is a backslash (the lexer closes it there when no other quote follows on the line)
 		{"id": 3, "emptyvars": false, "vars": []any{}, "stmts": []any{J{"k": "call", "name": "set_tx_meta", "args": jl(eStr("k"), eStr(`C:\tmp\`))}}},
+		// a send-all whose source is @world with a bound (rejected by the checker, but it parses; its prefixes and
+		// single-token deletions leave the bound half written)
+		{"id": 4, "emptyvars": false, "vars": []any{}, "stmts": []any{J{"k": "send", "all": true, "sent": eAsset("USD"),
+			"src": J{"k": "seq", "s": []any{J{"k": "ovd", "e": eAcct("world"), "b": eMon(eAsset("USD"), eNum(5))}, J{"k": "acct", "e": eAcct("a")}}}, "dst": J{"k": "acct", "e": eAcct("x")}},
+			J{"k": "send", "all": true, "sent": eAsset("USD"), "src": J{"k": "ovd", "e": eAcct("world"), "b": eMon(eAsset("USD"), eNum(5))}, "dst": J{"k": "acct", "e": eAcct("x")}}}},
+		// ratio parts around 2^63 and 2^64 (19 and 20 digits)
+		{"id": 5, "emptyvars": false, "vars": []any{}, "stmts": []any{
+			J{"k": "call", "name": "set_tx_meta", "args": jl(eStr("k"), J{"k": "portion", "lex": "1/9223372036854775808"})},
+			J{"k": "call", "name": "set_tx_meta", "args": jl(eStr("k"), J{"k": "portion", "lex": "9223372036854775809 / 18446744073709551616"})},
+			J{"k": "call", "name": "set_tx_meta", "args": jl(eStr("k"), J{"k": "portion", "lex": "0009223372036854775807/9999999999999999999"})}}},
 	}
 	for i := 0; i < n; i++ {
 		if i < len(fixed) && n > len(fixed) {
